@@ -78,6 +78,18 @@ class _Rem:
     tymeout = 1.0
 
 
+def _scribble(r):
+    """load - mutate the result in place - load again: the attributes of an ended message belong to the caller"""
+    try:
+        if r.headers is not None:
+            r.headers.clear()
+            r.headers["x-scribble"] = "1"
+        if not getattr(r, "evented", None):
+            r.body[:] = b"scribble"
+    except Exception:   # noqa
+        pass
+
+
 def _req_result(r):
     if r.errored:
         return ("err", errtag(r.error))
@@ -100,13 +112,14 @@ def feed_req(chunks, want_started=False):
         while live:
             try:
                 r.parse()
-            except Exception as ex:   # noqa  what escapes parse() escapes the service loop
+            except BaseException as ex:   # noqa  (every kind of exception out of the code under test is an observation)  what escapes parse() escapes the service loop
                 tail = ("escaped", type(ex).__name__)
                 live = False
                 break
             if not r.ended:
                 break
             out.append(_req_result(r))
+            _scribble(r)
             if r.errored:
                 tail = ("closed",)
                 live = False
@@ -147,7 +160,7 @@ def feed_resp(method, chunks, closed):
         while state["live"]:
             try:
                 r.parse()
-            except Exception as ex:   # noqa
+            except BaseException as ex:   # noqa  (every kind of exception out of the code under test is an observation)
                 from hio.core.http import httping
                 if isinstance(ex, httping.HTTPException):   # Client.serviceResponse catches these
                     out.append(("err", errtag(str(ex))))
@@ -159,6 +172,7 @@ def feed_resp(method, chunks, closed):
             if not r.ended:
                 return
             out.append(_resp_result(r))
+            _scribble(r)
             if r.errored:
                 state["tail"] = ("closed",)
                 state["live"] = False
@@ -201,7 +215,7 @@ def feed_resp_seq(method, streams):
             while state["go"]:
                 try:
                     r.parse()
-                except Exception as ex:   # noqa
+                except BaseException as ex:   # noqa  (every kind of exception out of the code under test is an observation)
                     state["esc"] = type(ex).__name__
                     state["go"] = False
                     return
@@ -250,7 +264,25 @@ def feed_sse(chunks):
         raw.extend(c)
         try:
             es.parse()
-        except Exception as ex:   # noqa
+        except BaseException as ex:   # noqa  (every kind of exception out of the code under test is an observation)
+            esc = type(ex).__name__
+            break
+    ev = [(U8(e['id']), U8(e['name']), U8(e['data'])) for e in es.events]
+    return (ev, U8(es.leid), es.retry, esc, None if esc else bytes(raw))
+
+
+def feed_sse_stream(chunks):
+    """httping.EventSource driven through its other public parser, parseEventStream (BOM, then the events)"""
+    from hio.core.http import httping
+    raw = bytearray()
+    es = httping.EventSource(raw=raw)
+    es.parser = es.parseEventStream()
+    esc = None
+    for c in chunks:
+        raw.extend(c)
+        try:
+            es.parse()
+        except BaseException as ex:   # noqa
             esc = type(ex).__name__
             break
     ev = [(U8(e['id']), U8(e['name']), U8(e['data'])) for e in es.events]
@@ -274,7 +306,7 @@ def feed_chunks(chunks):
             except httping.HTTPException as ex:
                 status = ("err", errtag(str(ex)))
                 break
-            except Exception as ex:   # noqa
+            except BaseException as ex:   # noqa  (every kind of exception out of the code under test is an observation)
                 status = ("escaped", type(ex).__name__)
                 break
             if res is None:
@@ -354,6 +386,19 @@ class FakeSock:
 
 
 def _app(environ, start_response):
+    """the WSGI application of the harness; some paths raise: when called, while iterated, or an HTTPError"""
+    path = environ.get('PATH_INFO', '')
+    if path.startswith('/callraise'):
+        raise ValueError("application failed when called")
+    if path.startswith('/httperror'):
+        from hio.core.http import httping
+        raise httping.HTTPError(400, title="no")
+    if path.startswith('/iterraise'):
+        def gen():
+            start_response("200 OK", [('Content-Type', 'text/plain')])
+            yield b"partial"
+            raise KeyError("application failed while iterated")
+        return gen()
     body = b"ok:" + environ['REQUEST_METHOD'].encode('ascii') + b":" + str(len(environ['wsgi.input'].read())).encode('ascii')
     start_response("200 OK", [('Content-Type', 'text/plain'), ('Content-Length', str(len(body)))])
     return [body]
@@ -363,8 +408,10 @@ def _count_responses(sent):
     return len(re.findall(rb"HTTP/1\.1 \d\d\d ", bytes(sent)))
 
 
-def run_server(kind, conns, cycles=None):
-    """conns: list of (fragments, close_after).  Returns (escaped-class or None, [(n_responses, still_open)])."""
+def run_server(kind, conns, cycles=None, round2=None):
+    """conns: list of (fragments, close_after).  Returns (escaped-class or None, [(n_responses, still_open)]).
+    round2: a second list of connections served afterwards by the SAME server object from the SAME peer addresses (the
+    first ones are closed by their peers first) -> the result then is that of the second round."""
     from hio.core import tcp
     from hio.core.http import serving
     ha = ('127.0.0.1', 8080)
@@ -395,11 +442,43 @@ def run_server(kind, conns, cycles=None):
                 s.tick()
             try:
                 srv.service()
-            except Exception as ex:   # noqa
+            except BaseException as ex:   # noqa  (every kind of exception out of the code under test is an observation)
                 esc = type(ex).__name__
                 break
     finally:
         sys.stderr = serr
+    if round2 is not None and esc is None:
+        sys.stderr = io.StringIO()
+        try:
+            for s in socks:             # the peers of the first round go away
+                s.frags = []
+                s.close_after = True
+            for _ in range(4):
+                for s in socks:
+                    s.tick()
+                try:
+                    srv.service()
+                except BaseException as ex:   # noqa
+                    esc = type(ex).__name__
+                    break
+            socks = []
+            for i, (frags, close_after) in enumerate(round2):
+                ca = ('127.0.0.1', 40000 + i)
+                s = FakeSock(frags, close_after, ca, ha)
+                socks.append(s)
+                servant.ixes[ca] = tcp.Remoter(ha=ha, ca=ca, cs=s, tymeout=0.0)
+            n2 = max([len(f) for f, _ in round2] + [0]) + 4 * sum(1 + sum(bytes(x).count(b"HTTP/") for x in f) for f, _ in round2) + 4
+            if esc is None:
+                for _ in range(n2):
+                    for s in socks:
+                        s.tick()
+                    try:
+                        srv.service()
+                    except BaseException as ex:   # noqa
+                        esc = type(ex).__name__
+                        break
+        finally:
+            sys.stderr = serr
     res = []
     for i, s in enumerate(socks):
         res.append((_count_responses(s.sent), ('127.0.0.1', 40000 + i) in servant.ixes and not s.closed))
@@ -467,7 +546,7 @@ def run_client(frags, close_after, scheme="http", redirectable=True, cycles=None
                 s.tick()
             try:
                 cli.service()
-            except Exception as ex:   # noqa
+            except BaseException as ex:   # noqa  (every kind of exception out of the code under test is an observation)
                 esc = type(ex).__name__
                 break
             tymist.tick()
@@ -522,7 +601,7 @@ def run_client_seq(streams, cycles=None):
                 sck.tick()
             try:
                 cli.service()
-            except Exception as ex:   # noqa
+            except BaseException as ex:   # noqa  (every kind of exception out of the code under test is an observation)
                 esc = type(ex).__name__
                 break
             tymist.tick()
@@ -710,7 +789,7 @@ def gen_request(rng, eolmode=None):
     e = lambda: gen_eol(rng, eolmode)
     method = rng.choice(METHODS)
     version = rng.choice(["HTTP/1.1", "HTTP/1.1", "HTTP/1.1", "HTTP/1.0"])
-    url = rng.choice(["/", "/a/b?x=1", "/p%20q#f", "http://h:80/x", "*", "/a?b=c&d"])
+    url = rng.choice(["/", "/a/b?x=1", "/p%20q#f", "http://h:80/x", "*", "/a?b=c&d", "/", "/a", "/callraise", "/iterraise?x", "/httperror"])
     out = bytearray()
     out += ("%s %s %s" % (method, url, version)).encode() + e()
     hs = gen_headers(rng, rng.randrange(0, 4))
@@ -803,7 +882,7 @@ def gen_sse_stream(rng, invalid_utf8=False):
             elif k < 0.72:
                 line = b"event" + rng.choice([b": ", b":"]) + rng.choice(["add", "msg", "", "x y"]).encode('utf-8')
             elif k < 0.84:
-                line = b"retry" + rng.choice([b": ", b":"]) + rng.choice(["5", "3000", "+5", "1_0", " 5", "5 ", "", "12a", "007", "-1", "²", "１２", "٣", "9" * 308, "9" * 309, "1" + "0" * 400, "9" * 4300]).encode('utf-8')
+                line = b"retry" + rng.choice([b": ", b":"]) + rng.choice(["5", "3000", "0", "00", "1", "+5", "1_0", " 5", "5 ", "", "12a", "007", "-1", "²", "１２", "٣", "9" * 308, "9" * 309, "1" + "0" * 400, "9" * 4300]).encode('utf-8')
             elif k < 0.92:
                 line = b":" + rng.choice(["", " comment", "data: no"]).encode()
             else:
@@ -966,6 +1045,9 @@ def mutate_bytes(rng, data, k=None):
 #   ("req",  data, cuts, expect|None)                 serving.Requestant, pipelined
 #   ("resp", head, data, cuts, closed, expect|None)   clienting.Respondent (+ far side closing)
 #   ("sse",  stream, cuts)                            httping.EventSource alone
+#   ("sses", stream, cuts)                            httping.EventSource through parseEventStream (BOM then events)
+#   ("srv2", kind, round1, round2)                    the same server object serving a second round of connections from the
+#                                                     same peer addresses after the first ones went away
 #   ("sser", mode, stream, sizes, cuts)               event stream inside a response: mode close | chunked
 #   ("sseq", ((mode, stream, sizes, drop, cuts), ...)) a SEQUENCE of event-stream responses through one Respondent: each is
 #                                                     the sser wire cut off after `drop` bytes (None = complete), read in
@@ -980,7 +1062,7 @@ def mutate_bytes(rng, data, k=None):
 #   ("clir", data, cuts)                              the same with a reconnectable connector: the far side closes, virtual
 #                                                     time passes, the client reconnects and re-requests (Last-Event-ID)
 
-def enc_wire(body, sizes, exts, trailers):
+def enc_wire(body, sizes, exts, trailers, pads=()):
     """deterministic chunked coding: chunk i has sizes[i] bytes (last one takes the rest), exts[i] appended verbatim
     (already starting with ';'), trailers [(k, v)]"""
     out = bytearray()
@@ -993,9 +1075,9 @@ def enc_wire(body, sizes, exts, trailers):
         c = body[i:i + n]
         i += n
         chunks.append(c)
-        out += (b"%x" % n) + (exts[k] if k < len(exts) else b"") + b"\r\n" + c + b"\r\n"
+        out += b"0" * (pads[k] if k < len(pads) else 0) + (b"%x" % n) + (exts[k] if k < len(exts) else b"") + b"\r\n" + c + b"\r\n"
         k += 1
-    out += b"0" + (exts[k] if k < len(exts) else b"") + b"\r\n"
+    out += b"0" * (pads[k] if k < len(pads) else 0) + b"0" + (exts[k] if k < len(exts) else b"") + b"\r\n"
     for kk, vv in trailers:
         out += kk + b": " + vv + b"\r\n"
     out += b"\r\n"
@@ -1038,26 +1120,26 @@ def case_data(case):
     k = case[0]
     if k == "sseq":
         return b"".join(sseq_wires(case))
-    if k in ("req", "sse", "chunks"):
+    if k in ("req", "sse", "sses", "chunks"):
         return case[1]
     if k == "resp":
         return case[2]
     if k == "sser":
         return sser_wire(case[1], case[2], case[3])
     if k == "enc":
-        return enc_wire(case[1], case[2], case[3], case[4])[0]
+        return enc_wire(case[1], case[2], case[3], case[4], case[6] if len(case) > 6 else ())[0]
     if k in ("cli", "clir"):
         return case[1]
     if k == "pack":
         from hio.core.http import httping
-        return b"".join(bytes(httping.packChunk(p)) for p in case[1]) + bytes(httping.packChunk(b""))
+        return b"".join(bytes(httping.packChunk(bytearray(p) if i % 2 else p)) for i, p in enumerate(case[1])) + bytes(httping.packChunk(b""))
     if k == "wsgi":
         return wsgi_wire(case[1])
     return b""
 
 
 def case_cuts(case):
-    ix = {"req": 2, "resp": 3, "sse": 2, "sser": 4, "chunks": 2, "enc": 5, "cli": 2, "clir": 2, "pack": 2, "wsgi": 2}.get(case[0])
+    ix = {"req": 2, "resp": 3, "sse": 2, "sses": 2, "sser": 4, "chunks": 2, "enc": 5, "cli": 2, "clir": 2, "pack": 2, "wsgi": 2}.get(case[0])
     return case[ix] if ix is not None else None
 
 
@@ -1083,6 +1165,12 @@ def run_case(case):
     if k == "sse":
         fr = frags_of(case)
         return (feed_sse(fr), feed_sse([case[1]]))
+    if k == "sses":
+        return (feed_sse_stream(frags_of(case)), feed_sse_stream([case[1]]))
+    if k == "srv2":
+        r1 = [(split_at(d, c), cl) for d, c, cl in case[2]]
+        r2 = [(split_at(d, c), cl) for d, c, cl in case[3]]
+        return (run_server(case[1], r1, round2=r2), run_server(case[1], r2))
     if k == "sseq":
         return (feed_resp_seq("GET", sseq_frags(case)), feed_resp_seq("GET", [[w] for w in sseq_wires(case)]),
                 run_client_seq(sseq_frags(case)))
@@ -1118,6 +1206,11 @@ def request_of(case):
         return ("resp", False, frags_of(case), case[1] == "close")
     if k == "sse":
         return ("sse", frags_of(case))
+    if k == "sses":
+        return ("sses", frags_of(case))
+    if k == "srv2":
+        alld = b" ".join(d for d, _, _ in case[3])
+        return ("srv", case[1], [(split_at(d, c), True) for d, c, _ in case[3]], bad_urls(alld))     # escaped class only
     if k == "sseq":
         return ("respseq", False, sseq_frags(case))
     if k == "pack":
@@ -1149,7 +1242,7 @@ def view_of(case, obs):
             # defect of the responder bookkeeping, property C18) so counts are compared for whole, complete deliveries only.
             out = []
             for (n, o), (d, cuts, cl) in zip(multi[1], case[2]):
-                if cl or cuts:
+                if cl or cuts or b"raise" in d or b"/httperror" in d:      # what the application does is not the model's
                     out.append((None, None))
                     continue
                 msgs, tail, started = feed_req([d], want_started=True)
@@ -1161,15 +1254,27 @@ def view_of(case, obs):
         return (multi[0],)
     if k in ("cli", "clir"):
         return (obs[0][0],)
+    if k == "sses":
+        return ("waiting", "waiting") if len(case[1]) < 3 else obs
+    if k == "srv2":
+        esc = obs[0][0]
+        return (esc, [(None, None)] * len(case[3])) if case[1] == "wsgi" else (esc,)
     if k == "sseq":
         return obs[:2]          # the Respondent-level runs; the Client-level run is for the oracle
     return obs
 
 
 def shrink_case(case):
-    """smaller variants: fewer cuts, shorter data"""
+    """smaller variants: fewer cuts, shorter data (never raises: a shrinker that cannot handle a case yields nothing)"""
+    try:
+        yield from _shrink_case(case)
+    except Exception:   # noqa
+        return
+
+
+def _shrink_case(case):
     k = case[0]
-    idx = {"req": (1, 2), "resp": (2, 3), "sse": (1, 2), "chunks": (1, 2), "cli": (1, 2), "clir": (1, 2)}.get(k)
+    idx = {"req": (1, 2), "resp": (2, 3), "sse": (1, 2), "sses": (1, 2), "chunks": (1, 2), "cli": (1, 2), "clir": (1, 2)}.get(k)
     if idx:
         di, ci = idx
         data, cuts = case[di], tuple(case[ci])
@@ -1218,15 +1323,21 @@ def shrink_case(case):
                     d2 = None if drop is None else hl + (keep - 1 if j < keep else keep)
                     yield (k, sts[:i] + ((mode, s2, sizes, d2, ()),) + sts[i + 1:])
     elif k == "enc":
-        _, body, sizes, exts, trailers, cuts = case
+        body, sizes, exts, trailers, cuts = case[1:6]
+        pads = tuple(case[6]) if len(case) > 6 else ()
         if cuts:
-            yield (k, body, sizes, exts, trailers, ())
+            yield (k, body, sizes, exts, trailers, (), pads)
         if trailers:
-            yield (k, body, sizes, exts, trailers[:-1], ())
+            yield (k, body, sizes, exts, trailers[:-1], (), pads)
         if exts:
-            yield (k, body, sizes, exts[:-1], trailers, ())
+            yield (k, body, sizes, exts[:-1], trailers, (), pads)
+        if sizes:
+            yield (k, body, (), exts, trailers, (), pads)
+        for i in range(len(pads)):
+            if pads[i]:
+                yield (k, body, sizes, exts, trailers, (), pads[:i] + (0,) + pads[i + 1:])
         for i in range(len(body)):
-            yield (k, body[:i] + body[i + 1:], sizes, exts, trailers, ())
+            yield (k, body[:i] + body[i + 1:], sizes, exts, trailers, (), pads)
     elif k in ("pack", "wsgi"):
         _, ps, cuts = case
         if cuts:
@@ -1239,6 +1350,18 @@ def shrink_case(case):
                 yield (k, ps[:i] + (ps[i][:-1],) + ps[i + 1:], ())
             if len(ps[i]) > 1:
                 yield (k, ps[:i] + (ps[i][:len(ps[i]) // 2],) + ps[i + 1:], ())
+    elif k == "srv2":
+        _, kind, r1, r2 = case
+        for i in range(len(r1)):
+            yield (k, kind, r1[:i] + r1[i + 1:], r2)
+        for i in range(len(r2)):
+            if len(r2) > 1:
+                yield (k, kind, r1, r2[:i] + r2[i + 1:])
+        for i, (d, c, cl) in enumerate(r1):
+            if c:
+                yield (k, kind, r1[:i] + ((d, (), cl),) + r1[i + 1:], r2)
+            if len(d) > 1:
+                yield (k, kind, r1[:i] + ((d[:len(d) // 2], (), cl),) + r1[i + 1:], r2)
     elif k == "srv":
         _, kind, conns = case
         for i in range(len(conns)):
@@ -1320,3 +1443,25 @@ def piece_of(rng, n):
     head = rand_body(rng, 16)
     tail = rand_body(rng, 16)
     return head + bytes([rng.randrange(256)]) * (n - 32) + tail
+
+
+def total(oracle):
+    """an observation the oracle cannot account for is a violation, never a crash of the check"""
+    def wrapped(self, case, obs):
+        try:
+            return oracle(self, case, obs)
+        except Exception as ex:   # noqa
+            return ["oracle-cannot-account-for-observation:" + type(ex).__name__]
+    return wrapped
+
+
+def safe(default):
+    """bookkeeping hooks (features, nontrivial, mutate) never crash the check on an unexpected observation"""
+    def deco(fn):
+        def wrapped(self, *a):
+            try:
+                return fn(self, *a)
+            except Exception:   # noqa
+                return default() if callable(default) else default
+        return wrapped
+    return deco
